@@ -119,6 +119,8 @@ async fn task_distributor_service<S>(
     interval.set_missed_tick_behavior(MissedTickBehavior::Skip);
     loop {
         interval.tick().await;
+        #[cfg(datacake_verif)]
+        crate::verif::flush_gate(ctx.local_node_id).await;
 
         if kill_switch.load(Ordering::Relaxed) {
             break;
